@@ -10,19 +10,15 @@
   Every theorem below is for EVERY tuple of source scripts and EVERY interleaving `order : List Nat`
   (no bound on lengths, on the number of sources where the operator has an arity, or on values).
 
-  Proved in full:   combineLatest, combineLatestAll, concat (delivered trace), bufferWhen, windowWhen.
-  Proved `_partial` with the excluded class witnessed (known findings, replayed on the real code):
-   * zip            — `Known.zipCompleteUnsub`: the first source to finish completes while values of
-                      its own are still queued; the complete callback then cancels every source.
-   * zipAll         — `Known.zipAllOuterCompletes`: the destination is completed when the outer
-                      source completes (`zipAll_out` says exactly what is delivered).
-   * concat (subs)  — `Known.concatInnerError`: after an inner error the remaining sources are still
-                      subscribed (and unsubscribed at once).
-   * groupBy        — `Known.groupByErrorCompletesGroups` (a hot source's error completes the groups
-                      instead of failing them), `Known.groupByLate` (a recorder subscribing after the
-                      source ended loses the queued values).
+  Proved in full:   zip, zipAll, combineLatest, combineLatestAll, concat (delivered trace and which
+                    sources are subscribed), bufferWhen, windowWhen, groupBy whenever no recorder is late.
+  (zip, zipAll, concat's subscriptions and groupBy's error case were `_partial` on the pinned tree;
+   the deviations were repaired in /repo by b6f7afa, 655488e, 808ed47, 85e48d9 and the models follow.)
+  Still `_partial`, the excluded class witnessed (known finding, replayed on the real code):
+   * groupBy        — `Known.groupByLate`: a recorder subscribing after the source ended loses the
+                      queued values (the unicast subject's behaviour is pinned by an Example test).
   Corollaries: grammar of every delivered trace (`run_grammar`, any machine); a delivered terminal
-  releases every source (`run_released`, `concat_released`, `zipAll_released`); per-source order /
+  releases every source (`run_released`, `concat_released`); per-source order /
   no loss / no duplication (`zip_component_prefix`, `concat_values_sublist`, `bufferWhen_partition`,
   `bufferWhen_prefix`; for groupBy and windowWhen it is the shape of the specification itself).
 
@@ -30,7 +26,8 @@
   sources, one transition per critical section / atomic operation / destination call) of Zip,
   CombineLatest, BufferWhen, WindowWhen; the clause FAILS for all four — witness theorems
   `Micro.*_concurrent_*_witness` below (a schedule whose delivered trace is the specification's value
-  for no compatible arrival order; for Zip also a self-deadlock and a reordering). The stress runs of
+  for no compatible arrival order; for Zip a lost tuple and a reordering — its self-deadlock and the
+  error overtaken by `Complete` are repaired: `Micro.zip_concurrent_error_scenario_ok`). The stress runs of
   harness kind `multibc` find the same outcomes on the real code and check that every outcome the
   real code shows is reachable in the micro-step model. ConcatAll and GroupBy have a single feeder
   at any time (the outer source is blocked in `Wait`; GroupBy has one source), so the clause is
@@ -53,10 +50,13 @@ open Ro Ro.MultiB
 
 /-! ### the statements, restated so that they cannot drift silently -/
 
-theorem zip {α : Type} (n : Nat) (hn : 0 < n) (scripts : List (List (Ev α))) (hlen : scripts.length ≤ n) (order : List Nat)
-    (hk : Known.zipCompleteUnsub n [] 0 (arrivals (scriptsFn scripts) order) = false) :
+theorem zip {α : Type} (n : Nat) (hn : 0 < n) (scripts : List (List (Ev α))) (hlen : scripts.length ≤ n) (order : List Nat) :
     (run (zipM n) scripts order).out = Spec.zip n (arrivals (scriptsFn scripts) order) :=
-  zip_spec_partial n hn scripts hlen order hk
+  zip_spec n hn scripts hlen order
+
+theorem zipAll {α : Type} (n : Nat) (outer : OuterEnd) (scripts : List (List (Ev α))) (hlen : scripts.length ≤ n) (order : List Nat) :
+    (run (zipAllM n outer) scripts order).out = Spec.zipAll n outer (arrivals (scriptsFn scripts) order) :=
+  zipAll_spec n outer scripts hlen order
 
 theorem combineLatest {α : Type} (n : Nat) (hn : 0 < n) (scripts : List (List (Ev α))) (hlen : scripts.length ≤ n) (order : List Nat) :
     (run (combineLatestM n) scripts order).out = Spec.combineLatest n (arrivals (scriptsFn scripts) order) :=
@@ -65,6 +65,10 @@ theorem combineLatest {α : Type} (n : Nat) (hn : 0 < n) (scripts : List (List (
 theorem concat {α : Type} (n : Nat) (outer : OuterEnd) (scripts : List (List (Ev α))) (hlen : scripts.length ≤ n) (order : List Nat) :
     (run (concatM n outer) scripts order).out = Spec.concat n outer (arrivals (scriptsFn scripts) order) :=
   concat_spec n outer scripts hlen order
+
+theorem concatSubscriptions {α : Type} (n : Nat) (outer : OuterEnd) (scripts : List (List (Ev α))) (hlen : scripts.length ≤ n) (order : List Nat) (j : Nat) :
+    (run (concatM n outer) scripts order).subs j = if Spec.concatSubscribed n (arrivals (scriptsFn scripts) order) j then 1 else 0 :=
+  concat_subs n outer scripts hlen order j
 
 theorem bufferWhen {α : Type} (scripts : List (List (Ev α))) (hlen : scripts.length ≤ 2) (order : List Nat) :
     (run bufferWhenM scripts order).out = Spec.bufferWhen (arrivals (scriptsFn scripts) order) :=
@@ -77,11 +81,10 @@ theorem windowWhen {α : Type} (scripts : List (List (Ev α))) (hlen : scripts.l
 
 theorem groupBy {α κ : Type} [DecidableEq κ] (key : α → Nat → κ) (delay : Nat)
     (scripts : List (List (Ev α))) (hlen : scripts.length ≤ 1) (order : List Nat)
-    (h1 : Known.groupByLate delay (arrivals (scriptsFn scripts) order) = false)
-    (h2 : Known.groupByErrorCompletesGroups (arrivals (scriptsFn scripts) order) = false) :
+    (h1 : Known.groupByLate delay (arrivals (scriptsFn scripts) order) = false) :
     viewOut ((run (groupByM key delay) scripts order).m.groups.map (·.2)) (run (groupByM key delay) scripts order).out
       = Spec.groupBy key (arrivals (scriptsFn scripts) order) :=
-  groupBy_spec_partial key delay scripts hlen order h1 h2
+  groupBy_spec_partial key delay scripts hlen order h1
 
 /-- error (any terminal) ends the output at once and releases the others — for every all-hot machine -/
 theorem released {σ α β : Type} (m : Machine σ α β) (h : AllHot m) (scripts : List (List (Ev α))) (hlen : scripts.length ≤ m.n)
@@ -89,24 +92,7 @@ theorem released {σ α β : Type} (m : Machine σ α β) (h : AllHot m) (script
     (run m scripts order).status j ≠ .live :=
   run_released m h scripts hlen order hterm j
 
-/-! ### deviation witnesses (each replayed on the real code as a known finding) -/
-
-/-- Zip2(A, B) with A = 1, 2, complete and B = 3, 4 arriving afterwards: nothing is delivered, B's
-    values are refused; the specification delivers (1,3), (2,4) and completes. -/
-theorem zip_complete_unsub_witness :
-    let scripts : List (List (Ev Int)) := [[.next 1, .next 2, .complete], [.next 3, .next 4]]
-    let order := [0, 0, 0, 1, 1]
-    (run (zipM 2) scripts order).out = [] ∧
-    Spec.zip 2 (arrivals (scriptsFn scripts) order) = [.next [1, 3], .next [2, 4], .complete] ∧
-    Known.zipCompleteUnsub 2 [] 0 (arrivals (scriptsFn scripts) order) = true ∧
-    (run (zipM 2) scripts order).released 1 = true := by decide
-
-/-- Zip(A, B) over hot sources: only `Complete` is delivered. -/
-theorem zipAll_outer_complete_witness :
-    let scripts : List (List (Ev Int)) := [[.next 1], [.next 2]]
-    (run (zipAllM 2 .complete) scripts [0, 1]).out = [.complete] ∧
-    Spec.zipAll 2 .complete (arrivals (scriptsFn scripts) [0, 1]) = [.next [1, 2]] ∧
-    Known.zipAllOuterCompletes 2 .complete = true := by decide
+/-! ### witnesses -/
 
 /-- documentation-level (C04): BufferWhen's doc comment promises a flush when the source errors;
     the code forwards the error at once — which is what C05 asks for ("ends the output at once"). -/
@@ -115,7 +101,10 @@ theorem bufferWhen_error_no_flush :
 
 /-! ### non-vacuity: the hypotheses are satisfiable and the statements say something -/
 
-example : Known.zipCompleteUnsub 2 [] 0 (arrivals (scriptsFn [[Ev.next (1:Int), .next 2, .complete], [.next 3, .next 4, .complete]]) [0, 1, 0, 1, 0, 1]) = false := by decide
+-- the inputs of the repaired deviations now satisfy the specifications
+example : (run (zipM 2) [[Ev.next (1:Int), .next 2, .complete], [.next 3, .next 4]] [0, 0, 0, 1, 1]).out
+    = [.next [1, 3], .next [2, 4], .complete] := by decide
+example : (run (zipAllM 2 .complete) [[Ev.next (1:Int)], [.next 2]] [0, 1]).out = [.next [1, 2]] := by decide
 example : (run (zipM 2) [[Ev.next (1:Int), .next 2, .complete], [.next 3, .next 4, .complete]] [0, 1, 0, 1, 0, 1]).out
     = [.next [1, 3], .next [2, 4], .complete] := by decide
 example : (run (zipM 3) [[Ev.next (1:Int), .next 2], [.next 3], [.next 5, .error (.user 9)]] [2, 0, 1, 0, 2]).out
@@ -134,27 +123,24 @@ example : Spec.bufferWhen (arrivals (scriptsFn [[Ev.next (1:Int), .next 2, .next
 end Ro.C05b
 
 #print axioms Ro.C05b.zip
+#print axioms Ro.C05b.zipAll
+#print axioms Ro.C05b.concatSubscriptions
 #print axioms Ro.C05b.combineLatest
 #print axioms Ro.C05b.concat
 #print axioms Ro.C05b.bufferWhen
 #print axioms Ro.C05b.windowWhen
 #print axioms Ro.C05b.groupBy
 #print axioms Ro.C05b.released
-#print axioms Ro.C05b.zip_complete_unsub_witness
-#print axioms Ro.C05b.zipAll_outer_complete_witness
 #print axioms Ro.C05b.bufferWhen_error_no_flush
 #print axioms Ro.MultiB.runCore_abs
 #print axioms Ro.MultiB.run_grammar
-#print axioms Ro.MultiB.zip_spec_partial
+#print axioms Ro.MultiB.zip_spec
 #print axioms Ro.MultiB.zip_component_prefix
-#print axioms Ro.MultiB.zipAll_out
-#print axioms Ro.MultiB.zipAll_released
-#print axioms Ro.MultiB.zipAll_spec_partial
+#print axioms Ro.MultiB.zipAll_spec
 #print axioms Ro.MultiB.combineLatest_spec
 #print axioms Ro.MultiB.combineLatestAll_spec
 #print axioms Ro.MultiB.concat_spec
-#print axioms Ro.MultiB.concat_subs_partial
-#print axioms Ro.MultiB.concat_subscribes_after_error_witness
+#print axioms Ro.MultiB.concat_subs
 #print axioms Ro.MultiB.concat_released
 #print axioms Ro.MultiB.concat_values_sublist
 #print axioms Ro.MultiB.bufferWhen_spec
@@ -163,9 +149,10 @@ end Ro.C05b
 #print axioms Ro.MultiB.windowWhen_spec
 #print axioms Ro.MultiB.groupBy_spec_partial
 #print axioms Ro.MultiB.groupBy_late_witness
-#print axioms Ro.MultiB.groupBy_error_witness
 #print axioms Ro.MultiB.Micro.zip_concurrent_lost_tuple_witness
-#print axioms Ro.MultiB.Micro.zip_concurrent_deadlock_witness
+#print axioms Ro.MultiB.Micro.zip_concurrent_error_scenario_ok
+#print axioms Ro.MultiB.Micro.zip_concurrent_complete_scenario_outcomes
+#print axioms Ro.MultiB.groupBy_spec_eager
 #print axioms Ro.MultiB.Micro.zip_concurrent_reorder_witness
 #print axioms Ro.MultiB.Micro.combineLatest_concurrent_duplicate_witness
 #print axioms Ro.MultiB.Micro.bufferWhen_concurrent_lost_buffer_witness
